@@ -712,8 +712,14 @@ func (g *sgen) mutStmtOn(t *loc) {
 			g.M("b:put", t, "", fmt.Sprintf("local d, n = %s:put(\"bytes for b:put\") return tostring(d) .. \"|\" .. tostring(n)", own[g.pick(len(own))].Name))
 		default:
 			d := g.someBlobDigest(sti)
-			g.used["blob.get"]++
-			g.M("blob.put", t, "", fmt.Sprintf("local b = blob.get(%s, %s) local d, n = blob.put(%s, b) return tostring(d) .. \"|\" .. tostring(n)", q(src.base()), q(d), g.refExpr(t, g.tagFor(t))))
+			if g.pick(2) == 0 {
+				// a blob object that only carries a descriptor (from blob.head) as content argument
+				g.used["blob.head"]++
+				g.M("blob.put", t, "", fmt.Sprintf("local b = blob.head(%s, %s) local d, n = blob.put(%s, b) return tostring(d) .. \"|\" .. tostring(n)", q(src.base()), q(d), g.refExpr(t, g.tagFor(t))))
+			} else {
+				g.used["blob.get"]++
+				g.M("blob.put", t, "", fmt.Sprintf("local b = blob.get(%s, %s) local d, n = blob.put(%s, b) return tostring(d) .. \"|\" .. tostring(n)", q(src.base()), q(d), g.refExpr(t, g.tagFor(t))))
+			}
 		}
 	case clCopy:
 		sarg := g.refExpr(src, sti.Tag)
